@@ -33,9 +33,21 @@ PROP = {
                    "has, index columns are pairwise distinct, updated column exists in the row, AccumulateHashCode is order-independent (AccComm) for "
                    "queries by key tuple, copies import rows that differ pairwise on every unique index (proved for rows taken from a table). "
                    "Trusted: Lean kernel + 3 standard axioms, extractor, harness (g++, -fno-access-control). Modelled not verified: the index "
-                   "hash tables themselves (C01/C13/C08 contracts), std::lower_bound / RadixSorter / std::sort (specifications), raw memory of rows."),
+                   "hash tables themselves (C01/C13/C08 contracts), std::lower_bound / RadixSorter / std::sort (specifications), raw memory of rows. "
+                   "(5) Finding F9 itself is a theorem-level statement in a refined, bucket-level model of ONE unique hash index (Momo.TIdx, "
+                   "Model/TableIdx.lean: the C01 hash table HT.Table holding (entry, raw) pairs, lookups = first examined position whose stored short hash "
+                   "and whose raw's current values match, UpdateRaw's steps Add(hashMixedKey) / PrepareRemove / assign / AcceptAdd / AcceptRemove in their order; "
+                   "any bucket description with SpecOK, any hash function, any fault value that lets the update complete): C07_updcol_correct_iff (the update "
+                   "keeps the index invariant IFF PrepareRemove did not settle on the entry just added or the two hash codes are equal; it settles on it IFF "
+                   "the decidable layout condition f9cond holds: new entry examined before the old one on the old key's probe path and equal short hashes), "
+                   "C07_updcol_safe_when_paths_disjoint (sufficient condition for correctness, so another failure of this path is distinguishable), "
+                   "C07_updcol_stale_state (the stale state exactly + frame: same entries under their former hash codes, all other rows still found, the row "
+                   "found under its new key only when its old entry accidentally passes for it), C07_updcol_F9_witness (4-bucket replay, kernel-evaluated). "
+                   "This model is run against the real HashSet<Raw*> of the unique index for every successful single-column update of a uniquely indexed column "
+                   "(suite <part>_idx, engine tableidx: bucket layout before the update in, reachability of the row + layout checksum after it out). "
+                   "The multi-hash index is not modelled at bucket level; only BucketOpen2N2<3, part getter> (the default of DataTraits) is tied at run time."),
     "modules": ["Momo.Props.C07"],
-    "theorems": ["Momo.Table.C07_select_eq_scan", "Momo.Table.C07_select_any_index", "Momo.Table.C07_choosePath_valid", "Momo.Table.C07_findByUnique_eq_scan", "Momo.Table.C07_findByMulti_eq_scan", "Momo.Table.C07_project", "Momo.Table.C07_projectDistinct", "Momo.Table.C07_add", "Momo.Table.C07_add_ok_iff", "Momo.Table.C07_clear", "Momo.Table.C07_insert", "Momo.Table.C07_extract", "Momo.Table.C07_extractRef", "Momo.Table.C07_removeRows", "Momo.Table.C07_removePred", "Momo.Table.C07_assign", "Momo.Table.C07_copy", "Momo.Table.C07_rows_distinct", "Momo.Table.C07_createUnique", "Momo.Table.C07_createMulti", "Momo.Table.C07_numbers_eq_positions", "Momo.Table.C07_update", "Momo.Table.C07_updateCol_partial", "Momo.Table.C07_updateCol_F9_witness", "Momo.Table.C07_history_partial", "Momo.Table.C07_step_inv", "Momo.Table.C07_history_F9"],
+    "theorems": ["Momo.Table.C07_select_eq_scan", "Momo.Table.C07_select_any_index", "Momo.Table.C07_choosePath_valid", "Momo.Table.C07_findByUnique_eq_scan", "Momo.Table.C07_findByMulti_eq_scan", "Momo.Table.C07_project", "Momo.Table.C07_projectDistinct", "Momo.Table.C07_add", "Momo.Table.C07_add_ok_iff", "Momo.Table.C07_clear", "Momo.Table.C07_insert", "Momo.Table.C07_extract", "Momo.Table.C07_extractRef", "Momo.Table.C07_removeRows", "Momo.Table.C07_removePred", "Momo.Table.C07_assign", "Momo.Table.C07_copy", "Momo.Table.C07_rows_distinct", "Momo.Table.C07_createUnique", "Momo.Table.C07_createMulti", "Momo.Table.C07_numbers_eq_positions", "Momo.Table.C07_update", "Momo.Table.C07_updateCol_partial", "Momo.Table.C07_updateCol_F9_witness", "Momo.Table.C07_history_partial", "Momo.Table.C07_step_inv", "Momo.Table.C07_history_F9", "Momo.TIdx.C07_updcol_correct_iff", "Momo.TIdx.C07_updcol_F9_witness", "Momo.TIdx.C07_updcol_safe_when_paths_disjoint", "Momo.TIdx.C07_updcol_stale_state"],
     "harnesses": [
         {"name": "c07_dyn_nonum", "src": "c07_table.cpp", "flags": ["-DVF_PART=0", "-g0"]},
         {"name": "c07_dyn_num", "src": "c07_table.cpp", "flags": ["-DVF_PART=1", "-g0"]},
@@ -73,8 +85,10 @@ PROP = {
              "Reserve, SelectEmpty, range Add / Insert / Assign, GetColumnItems (DataConstItemBounds / Iterator arithmetic), iterator arithmetic of "
              "selection and table, DataTable(Selection / ConstSelection), conversion to ConstSelection and Sort / bounds on it, rvalue Sort / Group."),
     "runtime_only": ["allocation ledger of the arena memory manager: nothing left allocated / no bad deallocation after each history (C03 piggyback)"],
-    "not_modelled": ["bucket layout of the index hash tables (HashSet<Raw*>, HashMultiMap<Raw*,Raw*>): abstracted to 'a lookup visits every entry inserted under that hash code'; "
-                     "therefore the model does not predict when finding F9 strikes - the harness recognises the pattern, reports known-F9 and rebuilds the table",
+    "not_modelled": ["bucket layout of the multi-hash index tables (HashMultiMap<Raw*,Raw*>) and, in the table-level model `table`, of the unique ones: abstracted to "
+                     "'a lookup visits every entry inserted under that hash code'; the table-level model therefore does not predict when finding F9 strikes - the "
+                     "harness recognises the pattern, reports known-F9 and rebuilds the table; for unique indexes the bucket-level model `tableidx` predicts it "
+                     "(row reachable under its new key or not, layout checksum) from the layout before the update and is compared on every such update",
                      "order of rows with equal keys after Selection::Sort / inside Group (std::sort / HashSorter: C17)",
                      "Reserve, capacity of mRaws, version counters (C15), DataRow life cycle (C19)",
                      "selection objects (Reverse, Sort(lessFunc), BinarySearch, Remove(filter), range Add / Insert / Assign, copies, DataTable(Selection)), "
